@@ -176,24 +176,36 @@ def _numeric_refusal_is_spurious(case, detail):
 
 
 def _unit_alternative_shadowed(case, detail):
-    """the shape behind grammar_graph's 'Child symbols [s] seem to be incorrect for parent <X>': <X> has the
-    one-symbol alternative s and also a one-symbol alternative <Y> where <Y> has the one-symbol alternative s
-    (find_choice_node_for_children then finds two choice nodes and refuses)"""
-    import re
-    m = re.search(r"Child symbols \['(.*)'\] seem to be incorrect for parent (<[^>]*>)", detail or "")
+    """the shape behind grammar_graph's 'Child symbols [..] seem to be incorrect for parent <X>': the children match
+    one alternative of <X> literally and another one through find_choice_node_for_children's "skipped nonterminal"
+    heuristic (a symbol <Y> of the alternative counts as matched by c if <Y> has the one-symbol alternative c), e.g.
+    <X> ::= s | <Y> with <Y> ::= s, or <X> ::= <X>a | <Z>a with <Z> ::= <X>; two matching choice nodes -> it refuses"""
+    import re, ast
+    m = re.search(r"Child symbols (\[.*\]) seem to be incorrect for parent (<[^>]*>)", detail or "")
     if not m:
         return False
-    s, x = m.group(1), m.group(2)
-    cg = rt.canon(case["grammar"])
-    alts = cg.get(x, [])
-    unit = [] if s == "" else [s]       # the empty alternative is the empty symbol list in the canonical grammar
-
-    def has_unit(alternatives):
-        return any(list(a) == unit or (s == "" and list(a) == [""]) for a in alternatives)
-
-    if not has_unit(alts):
+    try:
+        cs = list(ast.literal_eval(m.group(1)))
+    except Exception:
         return False
-    return any(len(a) == 1 and a[0] in cg and has_unit(cg[a[0]]) for a in alts)
+    x = m.group(2)
+    cg = rt.canon(case["grammar"])
+    if cs == [""]:
+        cs = []
+
+    def unit_of(sym, c):
+        return sym in cg and any(list(b) == [c] or (c == "" and list(b) in ([], [""])) for b in cg[sym])
+
+    n = 0
+    for a in cg.get(x, []):
+        a = [y for y in a if y != ""]
+        if not cs:
+            if not a or (len(a) == 1 and unit_of(a[0], "")):
+                n += 1
+            continue
+        if len(a) == len(cs) and all(a[i] == cs[i] or unit_of(a[i], cs[i]) for i in range(len(cs))):
+            n += 1
+    return n >= 2
 
 
 def _run_raw(case, text):
